@@ -214,6 +214,36 @@ def run(ctx, out):
             if got != want or ogot != want:
                 out.violation('C18:nearest-class-wins', f'handlers outer={outer_h} mid={mid_h} inner={inner_h} (A, B are shared handler objects): converter used for the '
                               f'innermost str field is {got!r} on input and {ogot!r} on output, expected {want!r}', {'outer': outer_h, 'mid': mid_h, 'inner': inner_h})
+    # ---- a field's own converter survives parameterisation and subclassing of a generic dataclass, in both directions,
+    #      and is used for plain scalar field values too (their serialised form is the converter's business)
+    TV = t.TypeVar('TV')
+    fconv, lconv, sconv = Mark('field-x'), Mark('field-xs'), Mark('field-s')
+    GBox = pytypes.new_class(terms.fresh_name('GBox'), (pane.PaneBase, t.Generic[TV]), {}, lambda d: d.update({
+        '__annotations__': {'x': TV, 'xs': t.List[TV], 's': int, 'y': TV},
+        'x': pane.field(converter=fconv), 'xs': pane.field(converter=lconv), 's': pane.field(converter=sconv)}))
+    GSub = pytypes.new_class(terms.fresh_name('GSub'), (GBox[int],), {}, lambda d: d.update({'__annotations__': {'z': int}, 'z': 0}))
+    terms.KEEP += [GBox, GSub]
+    for label, cls in (('unparameterised generic', GBox), ('Box[int]', GBox[int]), ('Box[str]', GBox[str]), ('class derived from Box[int]', GSub),
+                       ('List[Box[int]]', None)):
+        n += 1
+        try:
+            with warnings.catch_warnings():
+                warnings.simplefilter('ignore')
+                data = {'x': 5, 'xs': [5], 's': 5, 'y': 5 if cls is not GBox[str] else 'q'}
+                if cls is None:
+                    inst = pane.from_data([data], t.List[GBox[int]])[0]
+                else:
+                    inst = pane.from_data(data, cls)
+                d3 = inst.into_data()
+        except Exception as e:
+            out.violation(f'C18:field-converter-generic:{type(e).__name__}', f'{label}: {type(e).__name__}: {str(e)[:200]}', {'class': label})
+            continue
+        got_in = {nm: (getattr(inst, nm)[1] if isinstance(getattr(inst, nm), tuple) and len(getattr(inst, nm)) == 3 else 'builtin') for nm in ('x', 'xs', 's')}
+        got_out = {nm: (d3[nm][1] if isinstance(d3[nm], (tuple, list)) and len(d3[nm]) == 3 and d3[nm][0] == 'out' else 'builtin') for nm in ('x', 'xs', 's')}
+        want = {'x': 'field-x', 'xs': 'field-xs', 's': 'field-s'}
+        if got_in != want or got_out != want:
+            out.violation('C18:field-converter-lost', f'{label}: the fields\' own converters must be used first; used on input {got_in}, on output {got_out}, '
+                          f'expected {want}', {'class': label, 'input': got_in, 'output': got_out})
     # ---- handler forms
     n += 3
     if pane.from_data(['a'], t.List[str], custom={list: Mark('m')}) != [('in', 'm', 'a')] if False else False:
